@@ -197,6 +197,10 @@ def ctrl_oracle(o):
 # recorded CG runs
 # --------------------------------------------------------------------------------------------------
 
+class _Runaway(Exception):
+    pass
+
+
 class Recorder:
     def __init__(self):
         self.opA, self.prec, self.dots, self.norm2, self.norminf = [], [], [], [], []
@@ -294,6 +298,8 @@ def run_cg_case(spec):
             return s
 
         def check(self, energy):
+            if len(self.statuses) > 2000:
+                raise _Runaway()
             s = inner.check(energy)
             self.statuses.append(int(s))
             rec.check_pos.append(energy.position.asnumpy().copy())
@@ -311,6 +317,12 @@ def run_cg_case(spec):
                 en, st = ift.ConjugateGradient(rc, nreset=spec["nreset"])(e0, P)
         except ZeroDivisionError as ex:
             out["exception"] = "ZeroDivisionError"
+            return out
+        except _Runaway:
+            # harness guard, not a verdict: a generated parameter setting whose criterion cannot be met
+            # (e.g. a relative criterion with minimum energy 0); the case is dropped and counted
+            out["exception"] = None
+            out["runaway"] = True
             return out
     out["exception"] = None
     out["status"] = int(st)
@@ -580,6 +592,10 @@ def gen_cg_spec(rng, i, nmax=10, cplx=False):
     prec = None if v < 0.5 else ([1.0 / d for d in diag] if v < 0.8 else rng.uniform(0.2, 3.0, size=n).tolist())
     spec = {"A": Aenc, "b": b, "x0": x0, "prec": prec, "nreset": int(rng.choice([1, 2, 3, 5, 20])),
             "ctrl": gen_ctrl(rng, KINDS[i % 5], n), "complex": cplx, "hpd": True}
+    if (b is None or not np.any(np.array(b))) and spec["ctrl"]["limit"] is None:
+        # minimum energy 0: the relative criteria (DeltaEnergy, GradInfNorm) never get small and CG
+        # would run until gamma underflows
+        spec["ctrl"]["limit"] = 4 * n + 10
     w = rng.random()
     if not cplx and w < 0.12:
         # outside the property's hypothesis: indefinite / singular operator or a preconditioner that is
@@ -671,6 +687,7 @@ class C14(C.Check):
 
     def __init__(self):
         self.ctrl_obs, self.cg_obs, self.cg_big, self.ie_obs = [], [], [], []
+        self.n_runaway = 0
 
     def translate(self, ctx):
         from tr import c14_tables
@@ -678,10 +695,10 @@ class C14(C.Check):
 
     def _cases(self, ctx):
         rng = ctx.rng(14)
-        nctrl, ncg, nbig = (100, 36, 30) if ctx.quick else (1000, 250, 300)
+        nctrl, ncg, nbig = (100, 24, 30) if ctx.quick else (1000, 250, 300)
         cor = ctx.corpus()
         ctrl = [c["spec"] for c in cor if c.get("kind") == "ctrl"] + [gen_ctrl_spec(rng, i) for i in range(nctrl)]
-        cg = [c["spec"] for c in cor if c.get("kind") == "cg"] + [gen_cg_spec(rng, i) for i in range(ncg)]
+        cg = [c["spec"] for c in cor if c.get("kind") == "cg"] + [gen_cg_spec(rng, i, nmax=8 if ctx.quick else 10) for i in range(ncg)]
         big = [gen_cg_spec(rng, i, nmax=40, cplx=(i % 2 == 0)) for i in range(nbig)]
         ie = [c["spec"] for c in cor if c.get("kind") == "ie"] + gen_ie_specs(rng, ctx.quick)
         return ctrl, cg, big, ie
@@ -691,6 +708,8 @@ class C14(C.Check):
         ctrl, cg, big, ie = self._cases(ctx)
         self.ctrl_obs = [run_ctrl_case(s) for s in ctrl]
         self.cg_obs = [run_cg_case(s) for s in cg]
+        self.n_runaway = sum(1 for o in self.cg_obs if o.get("runaway"))
+        self.cg_obs = [o for o in self.cg_obs if not o.get("runaway")]
         self.cg_big = big
         self.ie_obs = [run_ie_case(s) for s in ie]
         checks, owner = [], []
@@ -757,6 +776,9 @@ class C14(C.Check):
                 report("ctrl", o["spec"], f, classify_exception(o["spec"]["ctrl"]["kind"], o["exception"]) if o["exception"]
                        else {"fn": "IterationController.check", "kind": o["spec"]["ctrl"]["kind"]})
         for o in self.cg_obs + [run_cg_case(s) for s in self.cg_big]:
+            if o.get("runaway"):
+                self.n_runaway += 1
+                continue
             n += 1
             f = cg_oracle(o)
             if f:
@@ -776,6 +798,8 @@ class C14(C.Check):
                 s = gen_cg_spec(rng, i, nmax=20, cplx=(i % 3 == 0))
                 n += 1
                 o = run_cg_case(s)
+                if o.get("runaway"):
+                    continue
                 f = cg_oracle(o)
                 if f:
                     k = s["ctrl"]["kind"]
@@ -792,6 +816,7 @@ class C14(C.Check):
                 if f:
                     report("ctrl", s, f, {"fn": "IterationController.check", "kind": s["ctrl"]["kind"]})
         res.coverage["impl_property_evaluations"] = n
+        res.coverage["cg_cases_dropped_by_runaway_guard"] = self.n_runaway
 
     def replay(self, ctx, rp):
         quiet()
@@ -799,7 +824,8 @@ class C14(C.Check):
         if i["kind"] == "ctrl":
             return ctrl_oracle(run_ctrl_case(i["spec"])) is not None
         if i["kind"] == "cg":
-            return cg_oracle(run_cg_case(i["spec"])) is not None
+            o = run_cg_case(i["spec"])
+            return (not o.get("runaway")) and cg_oracle(o) is not None
         return ie_oracle(run_ie_case(i["spec"])) is not None
 
 
